@@ -68,8 +68,10 @@ def translate(scale: Unit, zero: Quantity) -> None:
 def _forget_plans() -> None:
     """Plans and paths are memoised per (start, end) pair, including the failures; a new
     equivalence may enable or change any of them"""
-    _plan_conversion.cache_clear()
+    # paths first: a plan made by another thread between the two lines is then made from
+    # fresh paths (and forgotten a moment later), never from an outdated path
     _find_path.cache_clear()
+    _plan_conversion.cache_clear()
 
 
 class ConversionNotFound(ValueError):
